@@ -218,7 +218,17 @@ PENDING = mk_enum('Poll', 'Pending')
 def payload(v, i=0): return v.f[(v.variant, i)]
 
 
+_th_cache = {}
+
+
 def type_head(tytext):
+    r = _th_cache.get(tytext)
+    if r is None:
+        r = _type_head(tytext); _th_cache[tytext] = r
+    return r
+
+
+def _type_head(tytext):
     """last path segment of a type with generic arguments removed: std::option::Option<T> -> Option"""
     t = tytext.strip()
     while t.startswith('&'):
@@ -696,9 +706,7 @@ class Machine:
     def do_call(s, st, th, fr, term):
         _, dest, callee, argops, ret, unw = term
         args = [s.operand(st, fr, a) for a in argops]
-        if not (callee.startswith(('<', '{')) or re.match(r'^[\w:]', callee)):
-            raise Unmodelled('callee ' + callee)
-        if re.match(r'^(move |copy )', callee):
+        if callee.startswith(('move ', 'copy ')):
             # indirect call through a fn pointer / closure value held in a local
             fv = s.operand(st, fr, (callee.split(' ')[0], parse_place(callee.split(' ', 1)[1])))
             return s.call_value(st, th, fv, args)
@@ -956,7 +964,13 @@ def short(n):
     return n
 
 
+_mk_cache = {}
+
+
 def model_key(callee):
-    c = callee
-    for _ in range(8): c = re.sub(r'<[^<>]*>', '', c)
-    return c[:80]
+    r = _mk_cache.get(callee)
+    if r is None:
+        c = callee
+        for _ in range(8): c = re.sub(r'<[^<>]*>', '', c)
+        r = c[:80]; _mk_cache[callee] = r
+    return r
